@@ -306,6 +306,23 @@ pub fn cases(quick: bool) -> Vec<UniCase> {
             }
         }
     }
+    // ---- a task that never releases a job listed among three real ones (first / second in the
+    // list): anything that filters, zips or indexes the other tasks must stay aligned
+    for a0 in &thin {
+        for a1 in &thin {
+            for a2 in &thin {
+                for (d0, d1, d2) in [(5u64, 6u64, 9u64), (9, 3, 5), (4, 12, 7)] {
+                    for pos in [0usize, 1] {
+                        for ana in ALL_ANA {
+                            let mut tasks = vec![task(a0, 3, d0, 1, 3), task(a1, 2, d1, 1, 1), task(a2, 1, d2, 1, 1)];
+                            tasks.insert(pos, task(&ArrSpec::Never, 2, 7, 1, 2));
+                            v.push(UniCase { ana, tasks, tua: 3, blocking: if ana.is_fp() && ana != Ana::FpP { 1 } else { 0 }, limit: BIG });
+                        }
+                    }
+                }
+            }
+        }
+    }
     // ---- FIFO: two and three tasks
     for a0 in &arrs {
         for c0 in 1..=cmax {
